@@ -1,6 +1,8 @@
 package common
 
 import (
+	"bytes"
+
 	"verif/model"
 	"verif/simkit"
 )
@@ -76,4 +78,16 @@ func Corrupt(c *simkit.Choices, doc *model.Doc, n int, st *simkit.Stats) ([]byte
 		faults = append(faults, f)
 	}
 	return b, faults
+}
+
+// HasPayloadlessTyped recognises UBJSON "$Z#", "$T#", "$F#" container headers:
+// the trigger predicate of known finding C03-ubjson-payloadless-typed-container
+// (cost proportional to the announced count, not to the input).
+func HasPayloadlessTyped(b []byte) bool {
+	for _, m := range []string{"$Z#", "$T#", "$F#"} {
+		if bytes.Contains(b, []byte(m)) {
+			return true
+		}
+	}
+	return false
 }
